@@ -124,7 +124,7 @@ def cases(chk):
                     for names in NAMELISTS[T]:
                         cs.append({"kind": "algebra", "P": [[list(k), w] for k, w in zip(keys, wts)], "names": names,
                                    "dict_order": "reversed" if len(cs) % 2 else "names"})
-    for i in range(300 if thorough else 60):       # arbitrary symmetric or asymmetric integer matrices
+    for i in range(3000 if thorough else 60):       # arbitrary symmetric or asymmetric integer matrices
         T = rng.choice([1, 2, 3])
         names = rng.choice(NAMELISTS[T])
         mats = []
@@ -137,7 +137,7 @@ def cases(chk):
                         rows[(a, b)] = rng.randrange(0, 4)
             mats.append([{"a": list(a), "b": list(b), "w": w} for (a, b), w in rows.items()])
         cs.append({"kind": "rowsum", "names": names, "mats": mats, "D": rng.choice([16, 10, 7])})
-    for i in range(200 if thorough else 50):       # clean annotated networks (annotations = actual motif counts)
+    for i in range(1500 if thorough else 50):       # clean annotated networks (annotations = actual motif counts)
         sizes = rng.choice([[2], [2, 3], [2, 3, 4], [3]])
         es, jd, tops = R.clean_network(rng, rng.choice([6, 10, 20, 40]), sizes, rng.choice([0.6, 1.0, 1.4]))
         if es:
